@@ -261,7 +261,8 @@ Definition check_passwd (users : list (str * str)) (name pw : str) : bool :=
   existsb (fun e => eqb_str (fst e) name && eqb_str (snd e) pw) users.
 
 (* ftp.go: Auth: &User{users: {"anonymous": "anonymous"}} *)
-Definition ftp_users : list (str * str) := [(s2b "anonymous", s2b "anonymous")].
+Definition S_anonymous : str := s2b "anonymous".
+Definition ftp_users : list (str * str) := [(S_anonymous, S_anonymous)].
 
 Definition S_root : str := [47%N].
 Definition is_digit (c : N) : bool := ((48 <=? c) && (c <=? 57))%N.
